@@ -417,7 +417,7 @@ var padMenu = []int{0, 1, 2, 13}
 const (
 	nOrders   = 4
 	nValOrder = 3
-	nForeign  = 5
+	nForeign  = 6
 )
 
 // ChooseLayout picks a layout (all choices costed, default = canonical).
@@ -445,7 +445,7 @@ type dirPlan struct {
 	valSize int
 }
 
-func foreignEntries(dir int, mode int) []Entry {
+func foreignEntries(dir int, mode int, order int) []Entry {
 	var out []Entry
 	switch mode {
 	case 1: // one embedded unknown tag per directory
@@ -469,6 +469,16 @@ func foreignEntries(dir int, mode int) []Entry {
 		case DirGPS:
 			out = append(out, Entry{Dir: dir, Tag: 0x0132, Name: "foreign-datetime-id-in-gps", V: S("2001:01:01 01:01:01"), Foreign: true})
 		}
+	case 5: // near the documented capacity: every directory's own out-of-line values plus these stay below 84 pending
+		// at any time.  Where each directory is followed by its values (orders 0, 2) that is a per-directory budget,
+		// where values are postponed (orders 1, 3) it is a budget for the whole block.
+		n := map[int]int{DirIFD0: 55, DirExif: 45, DirGPS: 40}[dir]
+		if order == 1 || order == 3 {
+			n = map[int]int{DirIFD0: 20, DirExif: 15, DirGPS: 5}[dir]
+		}
+		for i := 0; i < n; i++ {
+			out = append(out, Entry{Dir: dir, Tag: 0x7200 + uint16(i), Name: fmt.Sprintf("foreign-%d", i), V: Long(uint32(i), uint32(i)*5), Foreign: true})
+		}
 	}
 	return out
 }
@@ -486,7 +496,7 @@ func EncodeTIFF(rec *Rec, lay Layout, bo binary.ByteOrder, dirs []int) *Doc {
 				p.entries = append(p.entries, e)
 			}
 		}
-		p.entries = append(p.entries, foreignEntries(d, lay.Foreign)...)
+		p.entries = append(p.entries, foreignEntries(d, lay.Foreign, lay.Order)...)
 		plans[d] = p
 	}
 	root := dirs[0]
@@ -799,7 +809,7 @@ func SelfCheck(rec *Rec, lay Layout, doc *Doc, dirs []int) error {
 				es = append(es, e)
 			}
 		}
-		es = append(es, foreignEntries(d, lay.Foreign)...)
+		es = append(es, foreignEntries(d, lay.Foreign, lay.Order)...)
 		want = append(want, es...)
 	}
 	key := func(e Entry) string { return fmt.Sprintf("%d/%04x/%s", e.Dir, e.Tag, e.V) }
